@@ -1,5 +1,5 @@
 #!/usr/bin/env python3
-"""mkseedws.py <tag> <N> [ids...]: creates /tmp/seed-cNN<tag>/{repo (worktree of /repo HEAD), out/, PROMPT.md} for seeding sub-agents.
+"""mkseedws.py <tag> <N> [ids...]: creates /tmp/<WS_KIND=seed|benign>-cNN<tag>/{repo (worktree of /repo HEAD), out/, PROMPT.md} for seeding sub-agents.
 The prompt holds only the property text (tools/SEED_PROMPT.md); nothing from /verif is copied."""
 import json, os, subprocess, sys
 tag, n = sys.argv[1], sys.argv[2]
@@ -8,11 +8,12 @@ for l in open("/verif/properties.jsonl"):
     d = json.loads(l)
     props[d["id"]] = d
 ids = [a.upper() for a in sys.argv[3:]] or sorted(props)
-tpl = open("/verif/tools/SEED_PROMPT.md").read()
+kind = os.environ.get("WS_KIND", "seed")  # seed | benign
+tpl = open("/verif/tools/%s_PROMPT.md" % kind.upper()).read()
 extra = os.environ.get("SEED_EXTRA", "")
 for ID in ids:
     d = props[ID]
-    ws = "/tmp/seed-%s%s" % (ID.lower(), tag)
+    ws = "/tmp/%s-%s%s" % (kind, ID.lower(), tag)
     os.makedirs(ws + "/out", exist_ok=True)
     if not os.path.exists(ws + "/repo"):
         subprocess.run("git -C /repo worktree add -q --detach %s/repo HEAD" % ws, shell=True, check=True)
